@@ -18,7 +18,7 @@ func init() {
 			"(R2) frames with a stream's id are constructed only in newFrameLocked, terminal packets are single done frames, all frames of one message reuse one Frame value (one kind, one id); " +
 			"plus the shared rules: emission and id bump only under Stream.write (C01.R1), writer buffer/sink under Writer.mu with whole frames only (C01.R6), flag/buffer agreement (C01.R8), next stream only after the previous finished and writer reset at construction (C02.R3/R5/R7), no emission after termination (C03.R2/R3), no frame after a failed write (C05.R9, C05.R4), encoder layout well-formed (C08.R2).",
 		NotDecided: "the global order of frames under all interleavings (e.g. id monotonicity across a soft-cancel hand-over) beyond the lock/pairing facts; that a conforming peer reader never rejects the stream.",
-		Rules: []Rule{
+		Rules: append([]Rule{
 			{ID: "C07.R1", Doc: "single writer / single reader / single closer of the transport; goroutines started once; ReadPacketUsing called only by manageReader", Run: c07r1},
 			{ID: "C07.R2", Doc: "Frame values for a stream are built only in newFrameLocked; terminal packets are one done frame; a message's frames share one Frame value", Run: c07r2},
 			{ID: "C07.S1", Alias: "C01.R1"},
@@ -39,7 +39,7 @@ func init() {
 			{ID: "C07.S16", Alias: "C03.R5"},
 			{ID: "C07.S17", Doc: "every emitted frame is well-formed: control byte, three varints, payload of the announced length", Alias: "C08.R2"},
 			{ID: "C07.S18", Alias: "C02.R6"},
-		},
+		}, disciplineRules("C07", "drpcwire", "drpcstream", "drpcmanager")...),
 	})
 }
 
